@@ -66,6 +66,16 @@ fn datum(p: &mut P, depth: usize) -> Option<Cell> {
             }
             Cell::Number(Number::from(if s == 1 { -(m as i64) } else { m as i64 }))
         }
+        11 => {
+            // the same integer held as a BigInt (what arithmetic that went through a bignum leaves behind)
+            let s = p.next()?;
+            let m = p.next()?;
+            if m > i64::MAX as u128 {
+                return None;
+            }
+            let v = if s == 1 { -(m as i64) } else { m as i64 };
+            Cell::Number(Number::BigInt(std::rc::Rc::new(num::bigint::BigInt::from(v))))
+        }
         2 => Cell::Bool(p.next()? != 0),
         3 => Cell::Char(char::from_u32(p.next()? as u32)?),
         4 => {
@@ -158,6 +168,8 @@ pub fn canon(c: &Cell, o: &mut String) {
         Cell::Char(ch) => o.push_str(&format!("#\\x{:x}", *ch as u32)),
         Cell::Nil => o.push_str("()"),
         Cell::Number(Number::Fixnum(n)) => o.push_str(&n.to_string()),
+        // an integer prints the same whichever representation holds it
+        Cell::Number(Number::BigInt(z)) => o.push_str(&z.to_string()),
         Cell::Number(Number::Float(f)) => o.push_str(&format!("#i{:x}", f.to_bits())),
         Cell::Number(n) => o.push_str(&format!("#n{}", n)),
         Cell::Pair(_, _) => {
